@@ -328,7 +328,11 @@ func runWire(t *testing.T, s *Scenario) (evs []wire.Event) {
 		var run *result.TracerouteRun
 		var err error
 		panicked := ""
-		hung := watchdog(t, w, func() {
+		limit := 30 * time.Minute // (the trace clock is in microseconds and TLC integers are 32 bit)
+		if s.Realclock {
+			limit = 12 * time.Second // real time: far beyond every bound of a real-clock scenario
+		}
+		hung := watchdog(t, w, limit, func() {
 			defer func() {
 				if r := recover(); r != nil {
 					panicked = fmt.Sprint(r)
@@ -377,7 +381,7 @@ func runWire(t *testing.T, s *Scenario) (evs []wire.Event) {
 
 // watchdog runs f and returns true if it is still running after 30 minutes of virtual time; the wire is then stopped (every
 // handle operation fails from then on) and f gets three more minutes to unwind.
-func watchdog(t *testing.T, w *wire.Wire, f func()) bool {
+func watchdog(t *testing.T, w *wire.Wire, limit time.Duration, f func()) bool {
 	done := make(chan struct{})
 	go func() {
 		defer close(done)
@@ -386,10 +390,20 @@ func watchdog(t *testing.T, w *wire.Wire, f func()) bool {
 	select {
 	case <-done:
 		return false
-	case <-time.After(30 * time.Minute): // (the trace clock is in microseconds and TLC integers are 32 bit)
+	case <-time.After(limit):
 	}
 	w.LogEvent("Watchdog")
 	w.Stop()
+	if limit < time.Minute {
+		// real clock: a call that does not even unwind after its handles were aborted is stuck for good (a deadlock); its goroutine is
+		// left behind and the scenario is reported as hung
+		select {
+		case <-done:
+		case <-time.After(10 * time.Second):
+			w.LogEvent("Stuck")
+		}
+		return true
+	}
 	select {
 	case <-done:
 	case <-time.After(3 * time.Minute):
@@ -429,8 +443,12 @@ func callProto(ctx context.Context, s *Scenario, target netip.Addr) (*result.Tra
 		cfg.LoosenICMPSrc = !s.Strict
 		return cfg.Traceroute()
 	case "sack":
+		fin := 500 * time.Millisecond
+		if v, ok := s.Extra["fin_timeout_ms"].(float64); ok && v > 0 {
+			fin = time.Duration(v) * time.Millisecond // (production: 500 SECONDS - a budget of the deadline, never a wait)
+		}
 		p := sack.Params{Target: netip.AddrPortFrom(target, uint16(s.Port)), HandshakeTimeout: tp.TracerouteTimeout,
-			FinTimeout: 500 * time.Millisecond, ParallelParams: common.TracerouteParallelParams{TracerouteParams: tp}, LoosenICMPSrc: !s.Strict}
+			FinTimeout: fin, ParallelParams: common.TracerouteParallelParams{TracerouteParams: tp}, LoosenICMPSrc: !s.Strict}
 		return sack.RunSackTraceroute(ctx, p)
 	}
 	return nil, fmt.Errorf("harness: unknown variant %q", s.Variant)
